@@ -2,7 +2,7 @@
    Statements only (copied from the lemma libraries); every proof is a bare
    `exact`; see the cited files in coq/proofs for the proofs. *)
 From Coq Require Import List NArith ZArith Bool Arith Sorting.Sorted Sorting.Permutation.
-From D2P Require Import Str Err Xml TableTypes Tables Fmt Merge Collector Walk TokFacts MiscFacts ProjFacts PyVal Source SourceBase ViewFacts SourceViews SourceEscape.
+From D2P Require Import Str Err Xml TableTypes Tables Fmt Merge Collector Walk TokFacts MiscFacts ProjFacts PyVal Source SourceBase ViewFacts SourceViews SourceEscape SourceFmt.
 Import ListNotations.
 Open Scope N_scope.
 Import String.StringSyntax.
@@ -180,3 +180,23 @@ Theorem C07_source_escape :
   = Ok (VStr (if py_truth fmt then render true (map TTxt s) else render false (map TTxt s))).
 Proof. exact src_escape. Qed.
 Print Assumptions C07_source_escape.
+
+(* SOURCE TIE: namespace.qn as translated from the source text resolves "w:NAME" to the Clark name under the element's binding of w, KeyError when w is unbound (the model's attr_w) *)
+Theorem C07_source_qn :
+  forall e ks name, ~ In 58%N name ->
+  S_qn (enc_fel (AE e ks)) (VStr ([119; 58]%N ++ name))
+  = match e_wuri e with
+    | Some u => Ok (VStr (fclark (Some u, name)))
+    | None => Err KeyError
+    end.
+Proof. exact src_qn_w. Qed.
+Print Assumptions C07_source_qn.
+
+(* SOURCE TIE: text_runs.gather_Pr / _gather_sub_vals as translated from the source text (iterfind, suppressed StopIteration, comments skipped, insertion-ordered dict) return exactly the model's property dictionary for every element (local names are NCNames: no brace) *)
+Theorem C07_source_gather_Pr :
+  forall (ext : pv -> pv -> res pv) e ks,
+  braceless (e_local e) -> kid_names_ok ks ->
+  (forall pe pks, In (AE pe pks) ks -> forall se sks, In (AE se sks) pks -> attr_names_ok se) ->
+  S_gather_Pr ext (enc_fel (AE e ks)) VNone = lift_prd (gather_Pr e ks).
+Proof. exact src_gather_Pr. Qed.
+Print Assumptions C07_source_gather_Pr.
